@@ -106,7 +106,7 @@ def recording_mp(rec, queue_script=None):
         def __init__(self, target=None, args=(), kwargs=None, **kw):
             self.wid = len(rec.procs)
             rec.procs.append(self)
-            self.target, self.args = target, args
+            self.target, self.args, self.kwargs = target, tuple(args), dict(kwargs or {})
             self.daemon = False
 
         def start(self):
@@ -197,6 +197,98 @@ def extract_full_reaction(run_entry, n_workers):
 
 
 # ------------------------------------------------------------------ 2. worker reaction table
+
+def call_worker_as_entry_does(run_entry, inq, ev, outq):
+    """Invoke the REAL worker function exactly as the REAL entry point would start it: the entry point runs against
+    recording fakes, the first Process's (target, args, kwargs) are taken, the queue the producer puts to is replaced by
+    `inq`, any other queue by `outq`, the event the producer sets by `ev` (other events stay passive fakes), and the
+    target is called in this thread.  Robust against changes of the worker's signature / argument order."""
+    rec = extract_producer(run_entry)
+    if not rec.procs:
+        raise HarnessError("the entry point started no worker process")
+    put_q = {op[1] for op in rec.ops if op[0] == "put"} or {0}
+
+    def mp_(a):
+        if any(a is q for q in rec.queues):
+            return inq if a.qid in put_q else outq
+        if any(a is e for e in rec.events):
+            return ev if a.flag or len(rec.events) == 1 else a
+        return a
+
+    p0 = rec.procs[0]
+    return p0.target(*[mp_(a) for a in p0.args], **{k: mp_(v) for k, v in p0.kwargs.items()})
+
+
+def infer_fault_reaction(call_worker, make_item=None):
+    """What does the REAL worker function do when the per-item action raises?  Probe: a failing item, a good item, then
+    an empty queue with the shutdown flag up.
+      'die'            the exception (or a non-zero SystemExit) leaves the worker function at once
+      'exit0'          the worker swallows it and returns normally without receiving again
+      'continue'       the worker swallows it, goes on receiving and finally returns normally
+      'continue_exit1' ... goes on receiving and finally exits with a non-zero status"""
+
+    class Boom(Exception):
+        pass
+
+    state = {"k": 0, "gets": 0, "cbs": 0}
+
+    def hook_for(k):
+        def hook(*a):
+            if k == 1:
+                raise Boom("injected failure")
+            state["cbs"] += 1
+        return hook
+
+    class InQ:
+        def get(self, block=True, timeout=None):
+            state["gets"] += 1
+            state["k"] += 1
+            k = state["k"]
+            if k <= 2:
+                if make_item is not None:
+                    return make_item(k, hook_for(k))
+                return ("ITEM", k)
+            if k == 3:
+                raise Empty()
+            raise Stop()
+
+    class Ev:
+        def is_set(self):
+            return state["k"] >= 2
+
+        def wait(self, timeout=None):
+            return self.is_set()
+
+        def set(self):
+            pass
+
+    class OutQ:
+        def put(self, item, *a, **k):
+            if state["k"] == 1:
+                raise HarnessError("the worker reports the item whose action raised as done: not modelled")
+
+    def on_cb(item):
+        hook_for(state["k"])()
+
+    try:
+        call_worker(InQ(), Ev(), on_cb, OutQ())
+        end = "returned"
+    except Boom:
+        end = "propagated"
+    except SystemExit as e:
+        end = "exit-nonzero" if e.code not in (0, None) else "returned"
+    except Stop:
+        end = "stop"
+    if end == "propagated" or (end == "exit-nonzero" and state["gets"] == 1):
+        return "die"
+    if state["gets"] == 1 and end == "returned":
+        return "exit0"
+    if state["gets"] >= 2 and end == "returned":
+        return "continue"
+    if state["gets"] >= 2 and end == "exit-nonzero":
+        return "continue_exit1"
+    raise HarnessError("worker reaction to a failing item outside the modelled family: end=%s after %d receives" % (end, state["gets"]))
+
 
 def worker_callbacks_for(call_worker, message):
     """Hand ONE recorded queue message to the REAL worker function (then end of input) and return the callback
@@ -376,6 +468,7 @@ def stage_ts(script, table, n_workers, fault=False, detects=True, full=None):
         ts.var("cnt%d" % i, 2, 0)
     for w in range(W):
         ts.var("ws%d" % w, 3, W_NOTSTARTED)
+        ts.var("wx%d" % w, 1, 0)                 # this worker's per-item action raised at some point
     fitem = None
     if fault:
         fitem = z3.BitVec("fault_item", 4)
@@ -456,8 +549,10 @@ def stage_ts(script, table, n_workers, fault=False, detects=True, full=None):
                 ts.t("cb_end w%d i%d" % (w, i), "w%d" % w, ok,
                      (lambda st, cnt, wsn: (lambda s: {st: bmc.bv(FINISHED, 3), cnt: s[cnt] + 1, wsn: bmc.bv(W_IDLE, 3)}))(st, cnt, wsn))
                 bad = (lambda st, ow, w, i: (lambda s: z3.And(s[st] == RUNNING, s[ow] == w, fitem == i)))(st, ow, w, i)
+                on_raise = table.get("on_raise", "die")
+                after = {"die": W_DEAD, "exit0": W_EXITED, "continue": W_IDLE, "continue_exit1": W_IDLE}[on_raise]
                 ts.t("cb_raise w%d i%d" % (w, i), "w%d" % w, bad,
-                     (lambda st, wsn: (lambda s: {st: bmc.bv(LOST, 3), wsn: bmc.bv(W_DEAD, 3)}))(st, wsn))
+                     (lambda st, wsn, after, w: (lambda s: {st: bmc.bv(LOST, 3), wsn: bmc.bv(after, 3), "wx%d" % w: bmc.bv(1, 1)}))(st, wsn, after, w))
             else:
                 ts.t("cb_end w%d i%d" % (w, i), "w%d" % w, mine(st, ow, w, RUNNING),
                      (lambda st, cnt, wsn: (lambda s: {st: bmc.bv(FINISHED, 3), cnt: s[cnt] + 1, wsn: bmc.bv(W_IDLE, 3)}))(st, cnt, wsn))
@@ -466,7 +561,11 @@ def stage_ts(script, table, n_workers, fault=False, detects=True, full=None):
         ts.var("wf%d" % w, 1, 0)
         style = table.get("flag_read", "after_empty")
         idle_empty = (lambda wsn: (lambda s: z3.And(s[wsn] == W_IDLE, pipe_empty(s))))(wsn)
-        to = (lambda wsn, val: (lambda s: {wsn: bmc.bv(val, 3)}))
+        if fault and table.get("on_raise") == "continue_exit1":
+            # a worker that swallowed a failure leaves its loop with a non-zero exit status
+            to = (lambda wsn, val, w=w: (lambda s: {wsn: (z3.If(s["wx%d" % w] == 1, bmc.bv(W_DEAD, 3), bmc.bv(W_EXITED, 3)) if val == W_EXITED else bmc.bv(val, 3))}))
+        else:
+            to = (lambda wsn, val: (lambda s: {wsn: bmc.bv(val, 3)}))
         if table["exit_on_unset"]:
             ts.t("timeout-exit w%d" % w, "w%d" % w, idle_empty, to(wsn, W_EXITED))
         elif not table["exit_on_set"]:
@@ -711,7 +810,7 @@ def sched_mp(S):
 
     class P:
         def __init__(self, target=None, args=(), kwargs=None, **kw):
-            self.target, self.args = target, args
+            self.target, self.args, self.kwargs = target, tuple(args), dict(kwargs or {})
             self.daemon = False
             self.exited = False
             self.exitcode = None
@@ -843,7 +942,7 @@ WT_NOTREADY, WT_RBUF, WT_RPIPE, WT_HELD, WT_RUN, WT_CBDONE, WT_DBUF, WT_DPIPE, W
 
 
 def walk_ts(tree, n_workers, R, worker_post, done_maxsize, shutdown, fault=False, max_live_seeds=None, apex_breaks=True,
-            loop_detects_dead=False, detects=True, flag_read="after_empty", early_set=()):
+            loop_detects_dead=False, detects=True, flag_read="after_empty", early_set=(), on_raise="die"):
     """tree: list of dicts(name, parent (index or None), bit, seed (bool: level == depth-1)).  The last entry is the apex.
     Liveness of every seed tile is a symbolic Boolean; an upper tile is live iff one of its children in the tree is.
     R: learned release table; shutdown: producer ops after the loop, e.g. ['close','join_thread','set','join','join'].
@@ -963,7 +1062,17 @@ def walk_ts(tree, n_workers, R, worker_post, done_maxsize, shutdown, fault=False
         return z3.And(*[s["st%d" % i] != WT_RPIPE for i in range(N)])
 
     put_first = tuple(worker_post) == ("put", "cb")
+    if on_raise not in ("die", "exit0", "continue", "continue_exit1"):
+        raise HarnessError("unknown worker reaction to a failing callback: %r" % (on_raise,))
+
+    def exit_code_of(w):
+        # a worker that swallowed a failure and kept going may still leave with a non-zero status
+        if fault and on_raise == "continue_exit1":
+            return lambda s: {"wx%d" % w: z3.If(s["wq%d" % w] == 1, bmc.bv(2, 2), bmc.bv(1, 2))}
+        return lambda s: {"wx%d" % w: bmc.bv(1, 2)}
+
     for w in range(W):
+        ts.var("wq%d" % w, 1, 0)
         alive = (lambda w: (lambda s: s["wx%d" % w] == 0))(w)
         for i, t in enumerate(tree):
             st, ow, cb = "st%d" % i, "ow%d" % i, "cb%d" % i
@@ -981,7 +1090,7 @@ def walk_ts(tree, n_workers, R, worker_post, done_maxsize, shutdown, fault=False
                     ts.t("cb_end w%d %s" % (w, t["name"]), "w%d" % w, (lambda w, st, ow, i: (lambda s: z3.And(s["wx%d" % w] == 0, s[st] == WT_RUN, s[ow] == w, fitem != i)))(w, st, ow, i),
                          (lambda st, cb: (lambda s: {st: bmc.bv(WT_CBDONE, 4), cb: s[cb] + 1}))(st, cb))
                     ts.t("cb_raise w%d %s" % (w, t["name"]), "w%d" % w, (lambda w, st, ow, i: (lambda s: z3.And(s["wx%d" % w] == 0, s[st] == WT_RUN, s[ow] == w, fitem == i)))(w, st, ow, i),
-                         (lambda st, w: (lambda s: {st: bmc.bv(WT_LOST, 4), "wx%d" % w: bmc.bv(2, 2)}))(st, w))
+                         (lambda st, w: (lambda s: {st: bmc.bv(WT_LOST, 4), "wx%d" % w: bmc.bv({"die": 2, "exit0": 1}.get(on_raise, 0), 2), "wq%d" % w: bmc.bv(1, 1)}))(st, w))
                 else:
                     ts.t("cb_end w%d %s" % (w, t["name"]), "w%d" % w, mine(w, st, ow, WT_RUN), (lambda st, cb: (lambda s: {st: bmc.bv(WT_CBDONE, 4), cb: s[cb] + 1}))(st, cb))
                 ts.t("put-done w%d %s" % (w, t["name"]), "w%d" % w,
@@ -1001,13 +1110,13 @@ def walk_ts(tree, n_workers, R, worker_post, done_maxsize, shutdown, fault=False
                 st, ow = "st%d" % i, "ow%d" % i
                 ts.t("get w%d %s (ready)" % (w, t["name"]), "w%d" % w, (lambda w, st: (lambda s: z3.And(s["wx%d" % w] == 3, s[st] == WT_RPIPE)))(w, st),
                      (lambda st, ow, w: (lambda s: {st: bmc.bv(WT_HELD, 4), ow: bmc.bv(w, 3), "wx%d" % w: bmc.bv(0, 2)}))(st, ow, w))
-            ts.t("timeout-exit w%d" % w, "w%d" % w, (lambda w: (lambda s: z3.And(s["wx%d" % w] == 3, rpipe_empty(s), s["wf%d" % w] == 1)))(w), (lambda w: (lambda s: {"wx%d" % w: bmc.bv(1, 2)}))(w))
+            ts.t("timeout-exit w%d" % w, "w%d" % w, (lambda w: (lambda s: z3.And(s["wx%d" % w] == 3, rpipe_empty(s), s["wf%d" % w] == 1)))(w), exit_code_of(w))
             ts.t("timeout-retry w%d" % w, "w%d" % w, (lambda w: (lambda s: z3.And(s["wx%d" % w] == 3, rpipe_empty(s), s["wf%d" % w] == 0, s["flag"] == 0)))(w), (lambda w: (lambda s: {"wx%d" % w: bmc.bv(0, 2)}))(w), spin=True)
             ts.t("timeout-retry w%d (flag up meanwhile)" % w, "w%d" % w, (lambda w: (lambda s: z3.And(s["wx%d" % w] == 3, rpipe_empty(s), s["wf%d" % w] == 0, s["flag"] == 1)))(w), (lambda w: (lambda s: {"wx%d" % w: bmc.bv(0, 2)}))(w))
         else:
             ts.t("timeout w%d" % w, "w%d" % w, (lambda idle: (lambda s: z3.And(idle(s), s["flag"] == 0)))(idle), (lambda w: (lambda s: {"wx%d" % w: bmc.bv(3, 2)}))(w), spin=True)
             ts.t("timeout w%d (flag up)" % w, "w%d" % w, (lambda idle: (lambda s: z3.And(idle(s), s["flag"] == 1)))(idle), (lambda w: (lambda s: {"wx%d" % w: bmc.bv(3, 2)}))(w))
-            ts.t("flagcheck-exit w%d" % w, "w%d" % w, (lambda w: (lambda s: z3.And(s["wx%d" % w] == 3, s["flag"] == 1)))(w), (lambda w: (lambda s: {"wx%d" % w: bmc.bv(1, 2)}))(w))
+            ts.t("flagcheck-exit w%d" % w, "w%d" % w, (lambda w: (lambda s: z3.And(s["wx%d" % w] == 3, s["flag"] == 1)))(w), exit_code_of(w))
             ts.t("flagcheck-retry w%d" % w, "w%d" % w, (lambda w: (lambda s: z3.And(s["wx%d" % w] == 3, s["flag"] == 0)))(w), (lambda w: (lambda s: {"wx%d" % w: bmc.bv(0, 2)}))(w), spin=True)
     ts.N, ts.W, ts.tree = N, W, tree
     ts.max_steps = N * 8 + len(shutdown) + 5 * W + 2
